@@ -61,13 +61,11 @@ def r16a(run, C):
             total += 1
             reach = fa.cfg.reach_from_succ(n, kinds=(N,), avoid=resets)
             ok = fa.cfg.exit not in reach or n in resets
-            # a reset *before* the write on every path also invalidates (nothing resolves in between)
-            if not ok and any(fa.cfg.dominates(r, n) for r in resets):
-                ok = True
+            # a reset *before* the write is not enough: a lookup between the two refills the memo from the old list
             run.check("R16a", f, f"registry write `{norm_stmt(n.ast)[:60]}` is paired with a reset of the resolve memo", ok,
                       construct=f"registry write without cache reset: {kind}",
-                      message=f"`{norm_stmt(n.ast)}` changes the registration list but no path to the function exit "
-                              f"resets self._cache",
+                      message=f"`{norm_stmt(n.ast)}` changes the registration list but the paths from it to the function "
+                              f"exit do not all reset self._cache afterwards",
                       necessity="a type resolved before the registration keeps its memoised converter: the new "
                                 "registration is ignored for that type and everything already cached", node=n.ast)
     run.floor("R16a", "writes to the registration list", total, 1)
@@ -259,12 +257,16 @@ def r16d(run, C):
         if n.kind == "stmt" and isinstance(n.ast, ast.Assign):
             for tg in n.ast.targets:
                 if isinstance(tg, ast.Subscript) and unparse(tg.value) == "self._cache":
+                    in_scan = any(x is n.ast for x in walk_shallow(lp.stmt))
                     ok = unparse(tg.slice) == t and isinstance(n.ast.value, ast.Name) and n.ast.value.id in names \
-                        and any(unparse(a) == "self.cache" and p for a, p in fa.facts.atoms_at(n))
+                        and any(unparse(a) == "self.cache" and p for a, p in fa.facts.atoms_at(n)) and in_scan \
+                        and all(d.kind == "branch" and d.is_for for d in fa.rd.defs_of(n, n.ast.value.id))
                     run.check("R16d", f, "the memo is filled for the resolved type with the matched function, only "
                                          "when caching is enabled", ok, construct="memo write",
-                              message=f"`{norm_stmt(n.ast)}` memoises under a different key/value or without the "
-                                      f"cache flag", necessity="another type's converter is served from the memo",
+                              message=f"`{norm_stmt(n.ast)}` memoises under a different key/value, without the "
+                                      f"cache flag, or something else than the entry matched by this registry's own scan",
+                              necessity="another type's converter is served from the memo; an answer taken from the base "
+                                        "registry and memoised here is not invalidated by a later registration in the base",
                               node=n.ast)
         if n.kind == "stmt" and isinstance(n.ast, ast.Return) and "self._cache" in unparse(n.ast):
             v = n.ast.value
